@@ -328,6 +328,11 @@ def run_property(modname, tier, seed, procs=None, limit_s=None):
         files = sorted(os.path.join(rdir, f) for f in os.listdir(rdir) if f.endswith(".json"))
         if files:
             jobs = [{"name": "regressions", "kind": "__regress__", "files": files}] + jobs
+    only = os.environ.get("WSVERIF_ONLY_JOBS")  # development aid (sensitivity experiments on one stage); never set by registered commands
+    if only:
+        import fnmatch
+
+        jobs = [j for j in jobs if fnmatch.fnmatch(j["name"], only)]
     procs = procs or min(16, max(1, len(jobs)), os.cpu_count() or 1)
     limit_s = limit_s or (900 if tier == "quick" else 7200)
     results = []
